@@ -175,6 +175,12 @@ def pairs(tier):
             ("readings", q("forall", "<var>", "f", None, "start", both), ("and", both[1], q("forall", "<var>", "f", None, "start", both[2]))))
         add("name-collision", f"free-then-named/{nm}", A, f'(<var> = "x" or <var> = "y") and (exists <var> {nm}: {nm} = "y")',
             q("forall", "<var>", "f", None, "start", ("and", ("or", eq("f", "x"), eq("f", "y")), q("exists", "<var>", "n", None, "start", eq("n", "y")))))
+    # const declaration: the declared constant takes the place of `start`
+    add("const-declaration", "explicit-in", A, 'const c: <start>; forall <var> v in c: (= v "x")', q("forall", "<var>", "v", None, "start", var_x("v")))
+    add("const-declaration", "atom-over-constant", A, 'const prog: <start>; str.len(prog) > 6', ("smt", [">", ["str.len", ["v", "start"]], ["i", 6]]))
+    add("const-declaration", "free-nonterminal", A, 'const c: <start>; <var> = "x"', q("forall", "<var>", "v", None, "start", var_x("v")))
+    add("const-declaration", "xpath", A, 'const c: <start>; exists <assgn> a in c: a.<var> = "y"', q("exists", "<assgn>", "a", mx(("<var>", "v"), " := ", "<rhs>"), "start", eq("v", "y")))
+    add("const-declaration", "omitted-in", A, 'const c: <start>; exists <digit> d: d = "1"', q("exists", "<digit>", "d", None, "start", eq("d", "1")))
     # the revised grammars: every alternative of the revised rule takes part in the translation
     A2 = "assgn2"
     m2 = lambda lhs, rhs: (mx(lhs, " := ", rhs), mx(lhs, " += ", rhs))
